@@ -261,6 +261,60 @@ theorem cmpStr_swap (a b : List Char) : cmpStr b a = (cmpStr a b).swap := by
           have h4 : ¬ y.toNat > x.toNat := by omega
           simp [h1, h2, h3, h4, ih ys]
 
+theorem swap_eq_iff (o : Ordering) : o.swap = .eq ↔ o = .eq := by cases o <;> simp [Ordering.swap]
+
+mutual
+  /-- Derived ordering is antisymmetric in the strong sense: swapping the operands swaps the verdict (`a < b` iff
+  `b > a`, equal iff equal), at any nesting depth. -/
+  theorem cmpV_swap (a b : Val) : cmpV b a = (cmpV a b).swap := by
+    match a, b with
+    | .int x, .int y => simp only [cmpV]; exact cmpInt_swap x y
+    | .bool x, .bool y => simp only [cmpV]; exact cmpInt_swap _ _
+    | .str x, .str y => simp only [cmpV]; exact cmpStr_swap x y
+    | .none_, .none_ => rfl
+    | .none_, .some_ _ => rfl
+    | .some_ _, .none_ => rfl
+    | .some_ x, .some_ y => simp only [cmpV]; exact cmpV_swap x y
+    | .list x, .list y => simp only [cmpV]; exact cmpList_swap x y
+    | .struct x, .struct y => simp only [cmpV]; exact cmpFields_swap x y
+    | .float _, b => cases b <;> simp [cmpV, Ordering.swap]
+    | .dict _, b => cases b <;> simp [cmpV, Ordering.swap]
+    | .int _, .bool _ | .int _, .str _ | .int _, .float _ | .int _, .none_ | .int _, .some_ _ | .int _, .list _ | .int _, .dict _ | .int _, .struct _ => simp [cmpV, Ordering.swap]
+    | .bool _, .int _ | .bool _, .str _ | .bool _, .float _ | .bool _, .none_ | .bool _, .some_ _ | .bool _, .list _ | .bool _, .dict _ | .bool _, .struct _ => simp [cmpV, Ordering.swap]
+    | .str _, .int _ | .str _, .bool _ | .str _, .float _ | .str _, .none_ | .str _, .some_ _ | .str _, .list _ | .str _, .dict _ | .str _, .struct _ => simp [cmpV, Ordering.swap]
+    | .none_, .int _ | .none_, .bool _ | .none_, .str _ | .none_, .float _ | .none_, .list _ | .none_, .dict _ | .none_, .struct _ => simp [cmpV, Ordering.swap]
+    | .some_ _, .int _ | .some_ _, .bool _ | .some_ _, .str _ | .some_ _, .float _ | .some_ _, .list _ | .some_ _, .dict _ | .some_ _, .struct _ => simp [cmpV, Ordering.swap]
+    | .list _, .int _ | .list _, .bool _ | .list _, .str _ | .list _, .float _ | .list _, .none_ | .list _, .some_ _ | .list _, .dict _ | .list _, .struct _ => simp [cmpV, Ordering.swap]
+    | .struct _, .int _ | .struct _, .bool _ | .struct _, .str _ | .struct _, .float _ | .struct _, .none_ | .struct _, .some_ _ | .struct _, .list _ | .struct _, .dict _ => simp [cmpV, Ordering.swap]
+  theorem cmpList_swap (a b : List Val) : cmpList b a = (cmpList a b).swap := by
+    match a, b with
+    | [], [] => rfl
+    | [], _ :: _ => rfl
+    | _ :: _, [] => rfl
+    | x :: xs, y :: ys =>
+      simp only [cmpList]
+      rw [cmpV_swap x y]
+      cases h : cmpV x y <;> simp [Ordering.swap, cmpList_swap xs ys]
+  theorem cmpFields_swap (a b : List (List Char × Val)) : cmpFields b a = (cmpFields a b).swap := by
+    match a, b with
+    | [], [] => rfl
+    | [], _ :: _ => rfl
+    | _ :: _, [] => rfl
+    | (k, x) :: xs, (l, y) :: ys =>
+      simp only [cmpFields]
+      rw [cmpV_swap x y]
+      cases h : cmpV x y <;> simp [Ordering.swap, cmpFields_swap xs ys]
+end
+
+/-- `a < b` exactly when `b > a`. -/
+theorem lt_iff_gt (a b : Val) : cmpV a b = .lt ↔ cmpV b a = .gt := by
+  rw [cmpV_swap a b]; cases cmpV a b <;> simp [Ordering.swap]
+
+/-- Equal values compare equal (ordering is consistent with `==`). -/
+theorem cmpV_refl_of_eq (a : Val) : cmpV a a = .eq := by
+  have := cmpV_swap a a
+  cases h : cmpV a a <;> simp [h, Ordering.swap] at this ⊢
+
 /-! ### Derive lists -/
 
 /-- The derive list the compiler emits always satisfies rustc's supertrait requirements, whatever subset of
